@@ -180,3 +180,26 @@ claim("C04", "other",
       "guard-chain decision table over type ids (R-ROUTE), statement parsing of products and exact algebra of normalisations "
       "(R-ALG), ordering rule on the return term (R-ORDER), loop-nest rules for the wave-vector generator (R-LOOPDOM, R-CMP)",
       "DESIGN.md section 4, C04")
+
+claim("C05", "other",
+      "Decides, for every configuration, the form of the three neighbour routines and of the file round trip: (i) the value "
+      "written for particle i is decoded into a selection pipeline and interpreted against numpy's documented contracts - "
+      "N-nearest: argpartition(kth)[:m] with m-kth in {0,1} (or a full argsort), sorted by the distances gathered with the same "
+      "candidates, ranks [1, N+1) kept, +1; cutoff: mask d <= cutoff (inclusive, comparator normalised), sorted by gathered "
+      "distances, first dropped, +1; the cn field equals the number of ids on the line; (ii) distances are row norms of "
+      "remove_pbc(positions - positions[i], the frame's cell, the caller's mask); (iii) per-type cutoffs: table[a, j] = "
+      "r_cut[a, type_j - 1] filled for all entries, row = centre type - 1; (iv) writers emit per frame one header carrying the "
+      "token `neighborlist` and one `id cn ids` line per particle (print options set before array2string, brackets blanked, "
+      "newline-terminated), from one handle opened before and closed after the frame loop; (v) the reader, decided symbolically "
+      "for cn <,=,> Nmax x list/weights: one header + nparticle lines per call from the caller's handle, row = id - 1, count = "
+      "min(cn, Nmax), columns [1, 1+c) from tokens [2, 2+c), -1 only for neighbour lists, zeros allocation (padding), trim to "
+      "max_cn + 1 columns when below Nmax, integer cast only for lists; (vi) all 12 read_neighbors call sites open the file once "
+      "outside the frame loop and read once per frame in order. Not decided: tie-breaking of argsort/argpartition, symmetry of the "
+      "cutoff relation (follows from symmetric distances), str()/int() parsing of numerals.",
+      "Trusted: numpy argpartition/argsort/boolean-mask semantics as documented; the idiom tables of pmsa/checks/c05.py (selection "
+      "and text forms outside them are ANALYSIS-ERROR). Concrete evaluation of the extracted selection term on small distance "
+      "arrays is used only to print a witness for an already failed structural obligation. remove_pbc itself is decided under C02.",
+      "abstract interpretation of selection pipelines (R-SELECTK), comparator normalisation (R-CMP), index base/sort rules (R-IDX), "
+      "writer line templates vs reader consumption with symbolic case analysis in (cn, Nmax) (R-PROTO), file-handle typestate at "
+      "all reader call sites (R-HANDLE), call-site argument roles of remove_pbc (R-PBC)",
+      "DESIGN.md section 4, C05")
